@@ -11,7 +11,7 @@ Proof. reflexivity. Qed.
 Lemma print0_comma_app a : forall b,
   print_items 0 (comma_app a b) = print_items 0 a ++ [IOp BComma] ++ print_items 0 b.
 Proof.
-  induction b as [s|s|b0 f|t IHt s|u v IHv|o b1 IH1 b2 IH2]; try reflexivity.
+  induction b as [s|s|b0 f|t IHt s|u v IHv|o b1 IH1 b2 IH2|c0 IHc0 y0 IHy0 n0 IHn0|t0 IHt0 i0 IHi0]; try reflexivity.
   destruct o; try reflexivity.
   change (comma_app a (EBin BComma b1 b2)) with (EBin BComma (comma_app a b1) b2).
   rewrite !print_comma_unfold. change (0 >=? LComma) with false. unfold paren.
@@ -20,15 +20,15 @@ Qed.
 
 Lemma shape_norm_or_and e : is_or_and (norm e) = is_or_and e.
 Proof.
-  destruct e as [s|s|b f|t s|u v|o l r]; try reflexivity. simpl.
+  destruct e as [s|s|b f|t s|u v|o l r|c0 y0 n0|t0 i0]; try reflexivity. simpl.
   destruct (op_eqb o BComma) eqn:E; [|reflexivity].
   assert (o = BComma) by (destruct o; try discriminate; reflexivity). subst o.
-  destruct (norm r) as [| | | | |o2 ? ?]; try reflexivity. destruct o2; reflexivity.
+  destruct (norm r) as [| | | | |o2 ? ?| |]; try reflexivity. destruct o2; reflexivity.
 Qed.
 
 Lemma print_norm : forall e P, print_items P (norm e) = print_items P e.
 Proof.
-  induction e as [s|s|b f|t IHt s|u v IHv|o l IHl r IHr]; intro P; try reflexivity.
+  induction e as [s|s|b f|t IHt s|u v IHv|o l IHl r IHr|c0 IHc0 y0 IHy0 n0 IHn0|t0 IHt0 i0 IHi0]; intro P; try reflexivity.
   - simpl. rewrite IHt. reflexivity.
   - simpl. rewrite !IHv. reflexivity.
   - simpl norm. destruct (op_eqb o BComma) eqn:E.
@@ -38,22 +38,24 @@ Proof.
         by (rewrite print0_comma_app, IHl, IHr; reflexivity).
       (* the wrapping decision only looks at the operator, which is a comma on both sides *)
       assert (Hc : exists x y, comma_app (norm l) (norm r) = EBin BComma x y).
-      { destruct (norm r) as [| | | | |o2 ? ?]; simpl; eauto. destruct o2; simpl; eauto. }
+      { destruct (norm r) as [| | | | |o2 ? ?| |]; simpl; eauto. destruct o2; simpl; eauto. }
       destruct Hc as (x & y & Hxy). rewrite Hxy in *. rewrite print_comma_unfold in *.
       change (0 >=? LComma) with false in H0. unfold paren in H0 at 1. rewrite H0. reflexivity.
     + cbn [print_items]. cbv zeta. rewrite !IHl, !IHr, !shape_norm_or_and.
       assert (Hs : match norm l with EUn u _ => negb (op_eqb u UPreDec || op_eqb u UPreInc || op_eqb u UPostDec || op_eqb u UPostInc) | ENum _ => true | _ => false end
                  = match l with EUn u _ => negb (op_eqb u UPreDec || op_eqb u UPreInc || op_eqb u UPostDec || op_eqb u UPostInc) | ENum _ => true | _ => false end).
-      { destruct l as [| | | | |o2 a b2]; try reflexivity. simpl. destruct (op_eqb o2 BComma); [|reflexivity].
-        destruct (norm b2) as [| | | | |o3 ? ?]; try reflexivity. destruct o3; reflexivity. }
+      { destruct l as [| | | | |o2 a b2| |]; try reflexivity. simpl. destruct (op_eqb o2 BComma); [|reflexivity].
+        destruct (norm b2) as [| | | | |o3 ? ?| |]; try reflexivity. destruct o3; reflexivity. }
       rewrite Hs. reflexivity.
+  - cbn [norm print_items]. rewrite !IHc0, !IHy0, !IHn0. reflexivity.
+  - cbn [norm print_items]. rewrite !IHt0, !IHi0. reflexivity.
 Qed.
 
 Lemma wf_comma_plain a b : wf a -> wf b -> wf (EBin BComma a b).
 Proof. intros Ha Hb. simpl. repeat split; auto. discriminate. Qed.
 Lemma wf_comma_app a : forall b, wf a -> wf b -> wf (comma_app a b).
 Proof.
-  induction b as [s|s|b0 f|t IHt s|u v IHv|o b1 IH1 b2 IH2]; intros Ha Hb;
+  induction b as [s|s|b0 f|t IHt s|u v IHv|o b1 IH1 b2 IH2|c0 IHc0 y0 IHy0 n0 IHn0|t0 IHt0 i0 IHi0]; intros Ha Hb;
     try (apply wf_comma_plain; assumption).
   destruct o; try (apply wf_comma_plain; assumption).
   change (comma_app a (EBin BComma b1 b2)) with (EBin BComma (comma_app a b1) b2).
@@ -61,19 +63,21 @@ Proof.
 Qed.
 Lemma wf_norm : forall e, wf e -> wf (norm e).
 Proof.
-  induction e as [s|s|b f|t IHt s|u v IHv|o l IHl r IHr]; intro H; try exact H.
+  induction e as [s|s|b f|t IHt s|u v IHv|o l IHl r IHr|c0 IHc0 y0 IHy0 n0 IHn0|t0 IHt0 i0 IHi0]; intro H; try exact H.
   - destruct H as (H1 & H2 & H3). simpl. auto.
   - destruct H as (H1 & H2 & H3). simpl. repeat split; auto. rewrite is_target_norm. exact H3.
   - destruct H as (H1 & H2 & H3 & H4). simpl. destruct (op_eqb o BComma) eqn:E.
     + apply wf_comma_app; auto.
     + simpl. repeat split; auto. rewrite is_target_norm. exact H4.
+  - destruct H as (H1 & H2 & H3). simpl. auto.
+  - destruct H as (H1 & H2). simpl. auto.
 Qed.
 
 Lemma cnf_comma_plain a b : cnf a -> cnf b -> not_comma b -> cnf (EBin BComma a b).
 Proof. intros Ha Hb Hn. simpl. auto. Qed.
 Lemma cnf_comma_app a : forall b, cnf a -> cnf b -> cnf (comma_app a b).
 Proof.
-  induction b as [s|s|b0 f|t IHt s|u v IHv|o b1 IH1 b2 IH2]; intros Ha Hb;
+  induction b as [s|s|b0 f|t IHt s|u v IHv|o b1 IH1 b2 IH2|c0 IHc0 y0 IHy0 n0 IHn0|t0 IHt0 i0 IHi0]; intros Ha Hb;
     try (apply cnf_comma_plain; [assumption | assumption | exact I]).
   destruct o; try (apply cnf_comma_plain; [assumption | assumption | exact I]).
   change (comma_app a (EBin BComma b1 b2)) with (EBin BComma (comma_app a b1) b2).
@@ -81,20 +85,22 @@ Proof.
 Qed.
 Lemma cnf_norm : forall e, cnf (norm e).
 Proof.
-  induction e as [s|s|b f|t IHt s|u v IHv|o l IHl r IHr]; simpl; auto.
+  induction e as [s|s|b f|t IHt s|u v IHv|o l IHl r IHr|c0 IHc0 y0 IHy0 n0 IHn0|t0 IHt0 i0 IHi0]; simpl; auto.
   destruct (op_eqb o BComma) eqn:E.
   - apply cnf_comma_app; auto.
   - simpl. repeat split; auto. intro H. subst o. discriminate.
 Qed.
 Lemma norm_cnf_id : forall e, cnf e -> norm e = e.
 Proof.
-  induction e as [s|s|b f|t IHt s|u v IHv|o l IHl r IHr]; intro H; simpl in *; try reflexivity.
+  induction e as [s|s|b f|t IHt s|u v IHv|o l IHl r IHr|c0 IHc0 y0 IHy0 n0 IHn0|t0 IHt0 i0 IHi0]; intro H; simpl in *; try reflexivity.
   - rewrite IHt; auto.
   - rewrite IHv; auto.
   - destruct H as (H1 & H2 & H3). rewrite IHl, IHr by assumption.
     destruct (op_eqb o BComma) eqn:E; [|reflexivity].
     assert (o = BComma) by (destruct o; try discriminate; reflexivity). subst o.
     apply comma_app_plain. auto.
+  - destruct H as (H1 & H2 & H3). rewrite IHc0, IHy0, IHn0 by assumption. reflexivity.
+  - destruct H as (H1 & H2). rewrite IHt0, IHi0 by assumption. reflexivity.
 Qed.
 Lemma norm_idem e : norm (norm e) = norm e.
 Proof. apply norm_cnf_id. apply cnf_norm. Qed.
